@@ -272,6 +272,58 @@ type Param struct {
 	ContentType string `json:"contentType,omitempty"`
 }
 
+// paramBinary is the JSON representation of a Param whose value is not valid
+// UTF-8 (e.g. an uploaded binary file), mirroring pdBinary.
+type paramBinary struct {
+	Name        string `json:"name"`
+	Value       []byte `json:"value,omitempty"`
+	Filename    string `json:"fileName,omitempty"`
+	ContentType string `json:"contentType,omitempty"`
+	Encoding    string `json:"encoding"`
+}
+
+// MarshalJSON returns a JSON representation of the Param; a value that is not
+// valid UTF-8 is base64 encoded instead of being mangled by the JSON encoder.
+func (p Param) MarshalJSON() ([]byte, error) {
+	if utf8.ValidString(p.Value) {
+		type noMethod Param // avoid infinite recursion
+		return json.Marshal(noMethod(p))
+	}
+	return json.Marshal(paramBinary{
+		Name:        p.Name,
+		Value:       []byte(p.Value),
+		Filename:    p.Filename,
+		ContentType: p.ContentType,
+		Encoding:    "base64",
+	})
+}
+
+// UnmarshalJSON populates the Param, decoding a base64 encoded value.
+func (p *Param) UnmarshalJSON(data []byte) error {
+	if bytes.Equal(data, []byte("null")) { // conform to json.Unmarshaler spec
+		return nil
+	}
+	var enc struct {
+		Encoding string `json:"encoding"`
+	}
+	if err := json.Unmarshal(data, &enc); err != nil {
+		return err
+	}
+	if enc.Encoding != "base64" {
+		type noMethod Param // avoid infinite recursion
+		return json.Unmarshal(data, (*noMethod)(p))
+	}
+	var pb paramBinary
+	if err := json.Unmarshal(data, &pb); err != nil {
+		return err
+	}
+	p.Name = pb.Name
+	p.Value = string(pb.Value)
+	p.Filename = pb.Filename
+	p.ContentType = pb.ContentType
+	return nil
+}
+
 // Content describes details about response content.
 type Content struct {
 	// Size is the length of the returned content in bytes. Should be equal to
